@@ -122,6 +122,21 @@ def items(tier: str, seed: int) -> list[Any]:
         for times, ack_at in (((1.2,), 2.4), ((0.8, 1.6), 2.6), ((1.2,), 1.8), ((1.0, 1.8), 1.9)):
             fr = [(filler, 1, t) for t in times] + [("ack1", 1, ack_at), ("data:7f2278", 1, ack_at)]
             add(fr, "wr", "frames")
+    # the gateway sends frames and closes: what was sent before the close is still delivered, in order
+    for pre in ([("data:62f190aa", 0)], [("data:62f190aa", 0), ("data:7f2278", 0)], [("fdataS:aa", 0), ("data:62f190aa", 0)], []):
+        for prog in ("sr", "r"):
+            for seg in ("one", "frames"):
+                add(pre + [("eof", 0)], prog, seg, b=1)
+    for pre in ([("ack1", 1), ("data:62f190aa", 1)], [("data:62f190aa", 1), ("ack1", 1)], [("ack1", 1)]):
+        for seg in ("one", "frames"):
+            add(pre + [("eof", 1)], "wr", seg, b=1)
+    # four-step histories on one connection (write, read, write, read) with frames that are skipped during the first ack wait
+    for x in ("data:62f190aa", "fdataS:aa", "data:7f2278"):
+        for y in (None, "data:62f190aa", "fdataS:aa"):
+            for tx in (0, 1):
+                fr = [(x, tx), ("ack1", 1), ("ack2", 2)] + ([(y, 2)] if y else [])
+                for seg in ("one", "frames"):
+                    add(fr, "wrwr", seg, b=1)
     # long histories: many frames pending while the client is idle / between a request and its ack (a bounded or
     # lossy hand-over between the reader task and the consumers only shows beyond its capacity)
     for n in (17, 33, 70, 130) if quick else (9, 17, 33, 65, 70, 129, 130, 300):
